@@ -43,7 +43,13 @@ func (mc modelCheck) register() {
 			return GenCase(t, k)
 		},
 		Check: func(c *Case, st *Stats) *Failure {
-			tr := Run(c, RunOpts{Risky: mc.risky})
+			risky := mc.risky
+			if risky == "" {
+				// since F10 a traversed cycle returns an error; if a worker
+				// dies anyway the driver reports the in-flight case
+				risky = "run"
+			}
+			tr := Run(c, RunOpts{Risky: risky})
 			v := Validate(c, tr, VOpts{ValidSigs: mc.valid})
 			l := CaseLabels(c, v)
 			ModelLabels(c, v, l)
@@ -56,6 +62,7 @@ func (mc modelCheck) register() {
 				}
 			}
 			cl := append(append([]string{}, commonClauses...), mc.clauses...)
+			cl = append(cl, CMissedCycleInvoke)
 			if mc.valid {
 				// every registration of these histories is well-formed: the
 				// only legitimate rejections are duplicates and cycles
